@@ -28,7 +28,7 @@ META = dict(
     "statistics (arbitrary values of the right shapes/weights, as after stochastic averaging), symbolic data and mask; every post-step "
     "parameter is proved equal to the documented closed form written from the statistics and the PRE-step values only; the noise level is "
     "additionally proved to be the RMS residual over observed entries when the statistics are those of the current state.",
-    bounds="2 individuals (3 thorough), 2 visits, 2-3 features, 0-2 sources; burn-in and after; scalar and diagonal noise",
+    bounds="2 individuals (3 thorough), 2 visits, 2-3 features, 0-2 sources; burn-in and after; scalar and diagonal noise; batched-update obligation also on the mixture model (2 clusters, 3 thorough): every parameter after the real update_parameters == its real rule on an untouched clone of the pre-step state",
     outside="numerical conditioning of E[x^2]-2muE[x]+mu^2 in floats; ordinal models (not shipped)",
     assumptions=["floats as reals", "sqrt abstracted with sqrt(v)>=0, sqrt(v)^2=v", "model_x_model is 0 at entries of visits without any observation (guaranteed by the visit-level weights of `model`)",
                  "LeaspyConvergenceError paths are accepted iff the documented variance is < tol on that path"],
